@@ -14,16 +14,6 @@ import PegVerif.Proofs.RefineDefs
 -/
 namespace PegVerif
 
-/-! ### `push` / `ipush`: uniform views (the `act` special case prints no label and no jump) -/
-
-theorem compile_push_st (env : CEnv) (e : Expr) (r : String) (ko : Nat) (pd pmk : Bool) (st : CSt) :
-    (compile env (.push e r) ko pd pmk st).st = (compile env e ko pd pmk ⟨st.label + 1, st.sw⟩).st := by
-  cases e <;> simp only [compile]
-
-theorem compile_ipush_st (env : CEnv) (e : Expr) (r : String) (ko : Nat) (pd pmk : Bool) (st : CSt) :
-    (compile env (.ipush e r) ko pd pmk st).st = (compile env e ko pd pmk ⟨st.label + 1, st.sw⟩).st := by
-  cases e <;> simp only [compile]
-
 /-! ### 1. The counters depend on nothing but the expression and the entry counters -/
 
 mutual
@@ -858,7 +848,7 @@ theorem compileAll_world {G : Grammar} {o : Opts} {cfg : Cfg} {inp : List Sym}
     · intro l hl
       have := hj (okB_noUalt _ _ hok) l hl
       simpa [realEnv, dryJumps] using this
-    · exact okB_fine (fun m hm => compileAll_hasFunc hinl m hm) _ hok
+    · exact (okB_fine (fun m hm => compileAll_hasFunc hinl m hm) _ hok).fineS
     · simp [Grammar.idOf, hfindG]
     · exact LinkedOK.shape hL hfindG hnil
 
